@@ -464,7 +464,7 @@ class Checker:
         self.id = prop_id
         self.level = level
         self.tier = tier or os.environ.get('VERIF_TIER', 'quick')
-        self.seed = int(seed if seed is not None else os.environ.get('VERIF_SEED', '20260926'))
+        self.seed = int(seed if seed is not None else (os.environ.get('VERIF_SEED') or '20260926'))
         self.rng = random.Random(self.seed)
         self.t0 = time.time()
         self.evaluations = 0
